@@ -93,18 +93,31 @@ def function_ranges(tree):
 def short(v, n=300):
     import re
 
-    s = re.sub(r"ctx=<[^>]*>|0x[0-9a-f]+|<test input [0-9a-f]+>", "@", str(v))
+    s = re.sub(r"ctx=<.*?object at 0x[0-9a-f]+>", "@", str(v))
+    s = re.sub(r"0x[0-9a-f]+|<test input [0-9a-f]+>", "@", s)
     return s if len(s) <= n else s[: n - 3] + "..."
 
 
 def run_module(m, budget, oracle):
     src = m["src"]
     res = {"id": m.get("id"), "fails": [], "counts": {}, "diag": [], "values": {}, "crash": None, "exec_errors": {}}
+    import signal
+
+    def _alarm(signum, frame):
+        raise TimeoutError("analysis did not finish within the time limit")
+
+    signal.signal(signal.SIGALRM, _alarm)
+    signal.alarm(int(m.get("analysis_timeout", 25)))
     try:
         tree, diags = analyse(src, m.get("via_annotate_code", False))
+    except TimeoutError:
+        res["timeout"] = True
+        return res
     except Exception:
         res["crash"] = "analysis: " + traceback.format_exc()[-1500:]
         return res
+    finally:
+        signal.alarm(0)
     inferred = {}
     kinds = {}
     node_of = {}
@@ -136,7 +149,12 @@ def run_module(m, budget, oracle):
         res["values"] = {k: c01_canon.canon(v[0]) for k, v in inferred.items()}
         res["values_str"] = {k: short(v[0], 120) for k, v in inferred.items()}
     if m.get("values_str_only"):
+        import hashlib
+        import re
+
         res["values_str"] = {k: short(v[0], 200) for k, v in inferred.items()}
+        # order-insensitive fingerprint of the full text (union/dict member order is not stable between analyses)
+        res["values_fp"] = {k: hashlib.sha1(" ".join(sorted(re.findall(r"[A-Za-z_0-9.'\"+-]+", short(v[0], 100000)))).encode()).hexdigest()[:12] for k, v in inferred.items()}
     calls = m.get("calls") or {}
     if not calls:
         return res
